@@ -1,6 +1,7 @@
 // ======================================================================================
 // prelude/acctstatus_lemmas.rs (owner: acctstatus / C15-C19) -- lemmas over the ORACLE of contracts/acctstatus.vc.
-// Everything here is proved (no axioms).  Needs in scope: the enum AccountStatus and `//@views acctstatus shared`.
+// Everything here is proved, except the two TRUSTED axioms right below (semantics of the derived PartialEq).
+// Needs in scope: the enum AccountStatus and `//@views acctstatus shared`.
 // These are statements over the step CONTRACTS (meaning / ev_* spec functions), not over the code; the code is tied
 // to them by the contracts of the extracted on_* / transition methods.
 // ======================================================================================
